@@ -24,7 +24,8 @@ P = {
  "C05": ("Cursor.v is a line-for-line Gallina model of cursor.go; theorems: the full refinement statement to the sorted-list specification is REFUTED with a kernel-checked witness (known finding D9), "
          "and PROVED for every call sequence (First/Last/Next/Prev/Seek in any order, both ends) on every well-formed tree without emptied leaves - every committed tree, every read transaction; "
          "Seek = first key >= the sought one; keys strictly increasing; the repaired prev/Last behaviour vs the pinned one on concrete trees; the model is compared call by call with the real cursor on the tree "
-         "the cursor actually walks (VerifDumpTree), and the specification is evaluated on every call sequence.",
+         "the cursor actually walks (VerifDumpTree), and the specification is evaluated on every call sequence. The hypothesis 'committed trees have no emptied leaves' is itself a theorem about Tree.v "
+         "(node.rebalance + node.spill, compared with the real commit on every generated case): no emptied page survives a commit, for every visit order.",
          "For trees with leaves emptied inside a write transaction only the refutation (D9) and the call-by-call correspondence are available; every call runs under a 3 s deadline.", "DESIGN.md §8 C05"),
  "C06": ("Pager.v invariant (inductive, all histories): every page a commit writes is outside the newest committed version and outside every open reader's version; the meta slot alternates. "
          "Tie: the extracted pstep is replayed on the real freelist events (guards monitored, free/pending/version/written sets compared) and every real WriteAt is intersected with "
@@ -93,8 +94,8 @@ P = {
          "Known finding D7 (map inflated by InitialMmapSize). Windows-specific branches are not modelled.", "DESIGN.md §8 C18"),
  "C12": ("Round-trip theorems between the published layout as a writer specification (LayoutEnc.v) and the independent reader (Layout.v) for integers, checksummed meta pages, free-list pages (both count encodings), leaf pages and branch elements at any file position; "
          "every file the implementation writes in generated histories is decoded by the extracted reader and compared with the API's report. "
-         "Node.write (line-for-line node.write/WriteInodeToPage) is proved to produce exactly the published leaf/branch page and to round-trip through Node.read for pages below 4 GiB (counterexample above); it is compared byte for byte with the real node.write on generated nodes.",
-         "Inline-bucket values and the recursive descent through branch pages are exercised by the correspondence only.", "DESIGN.md §8 C12"),
+         "Node.write (line-for-line node.write/WriteInodeToPage) is proved to produce exactly the published leaf/branch page and to round-trip through Node.read for pages below 4 GiB (counterexample above); it is compared byte for byte with the real node.write on generated nodes; the independent reader is proved to decode inline buckets (Bucket.write) and paged bucket entries written that way.",
+         "Nesting deeper than one inline level and the recursive descent through branch pages are exercised by the correspondence only.", "DESIGN.md §8 C12"),
 }
 ALL = ["C%02d" % i for i in range(1, 21)]
 def chk(pid):
